@@ -304,6 +304,31 @@ fn cell_obs(o: &alpha::Outcome) -> Value {
     v
 }
 
+/// Compile one cell.  One file: the single-module pipeline; two files (`import:*` duplicates): the multi-module driver.
+/// For the pair family every diagnostic carries the declaration it is located on: [code, line, 1 | 2 | 0].
+fn cell_run(case: &Value) -> Value {
+    let r = positions::render_all(case);
+    if r.files.len() == 1 {
+        let o = alpha::run_single(&r.files[0].1, "case.pn", alpha::Upto::Resolve, false);
+        let mut v = cell_obs(&o);
+        if r.first.0 > 0 {
+            let which = |line: usize| if line >= r.first.0 && line <= r.first.1 { 1 } else if line >= r.second.0 && line <= r.second.1 { 2 } else { 0 };
+            v["diags"] = json!(o.diags.iter().map(|d| json!([d.code, d.line, which(d.line)])).collect::<Vec<_>>());
+        }
+        return v;
+    }
+    let o = driver::run_multi(&r.files, driver::Upto::Resolve, false, true);
+    let mut v = json!({
+        "ok": o.ok,
+        "stage": o.stage,
+        "diags": o.modules.iter().flat_map(|m| m.diags.iter().map(|d| json!([d.code, d.line]))).collect::<Vec<_>>(),
+    });
+    if let Some(p) = &o.panic {
+        v["panic"] = json!(p);
+    }
+    v
+}
+
 fn replay_cells(args: &[String]) {
     if args.len() < 2 {
         usage();
@@ -313,8 +338,7 @@ fn replay_cells(args: &[String]) {
     if args.len() >= 3 && args[2] == "--inner" {
         let results = par_map(&lines, |_, line| {
             let case: Value = serde_json::from_str(line).expect("case json");
-            let o = alpha::run_single(&positions::render(&case), "case.pn", alpha::Upto::Resolve, false);
-            cell_obs(&o).to_string()
+            cell_run(&case).to_string()
         });
         write_lines(&args[1], &results);
         return;
@@ -324,13 +348,14 @@ fn replay_cells(args: &[String]) {
 
 fn show_cell(args: &[String]) {
     let case: Value = serde_json::from_str(&args[0]).expect("json");
-    let src = positions::render(&case);
-    for (i, l) in src.lines().enumerate() {
-        println!("{:3} | {}", i + 1, l);
+    for (path, src) in &positions::render_all(&case).files {
+        println!("---- {path}");
+        for (i, l) in src.lines().enumerate() {
+            println!("{:3} | {}", i + 1, l);
+        }
     }
     alpha::install_quiet_panic_hook();
-    let o = alpha::run_single(&src, "case.pn", alpha::Upto::Resolve, false);
-    println!("observed (diags are [code, line]): {}", cell_obs(&o));
+    println!("observed (diags are [code, line] or [code, line, declaration]): {}", cell_run(&case));
 }
 
 // ---------------------------------------------------------------------------------------------
